@@ -61,6 +61,9 @@ pub fn acct_key(k: u64) -> Pubkey {
 
 #[derive(Clone, Debug)]
 pub struct SIx {
+    /// bytes of instruction data after the 8-byte discriminator (arguments; Anchor ignores surplus bytes of an instruction
+    /// without arguments). Not part of the op line: which instruction a list entry IS does not depend on it.
+    pub extra: u8,
     pub prog: u64,
     pub disc: i64, // -1: data shorter than 8 bytes
     pub acct0: i64, // -1: no accounts
@@ -70,7 +73,7 @@ pub struct SIx {
 pub fn build(ixs: &[SIx]) -> Vec<Instruction> {
     ixs.iter()
         .map(|s| {
-            let data = if s.disc < 0 { vec![1, 2, 3] } else { let mut d = disc_bytes(s.disc as u64).to_vec(); d.extend_from_slice(&[0u8; 8]); d };
+            let data = if s.disc < 0 { vec![1, 2, 3] } else { let mut d = disc_bytes(s.disc as u64).to_vec(); d.extend(std::iter::repeat(0u8).take(s.extra as usize)); d };
             let accounts = if s.acct0 < 0 { vec![] } else { vec![AccountMeta::new(acct_key(s.acct0 as u64), false), AccountMeta::new_readonly(acct_key(s.acct1 as u64), true)] };
             Instruction { program_id: prog_key(s.prog), accounts, data }
         })
@@ -108,44 +111,48 @@ fn gen_shape(rng: &mut Rng, liq: bool) -> (Vec<SIx>, usize) {
     let a = rng.below(3) as i64;
     for _ in 0..rng.below(3) {
         v.push(match rng.below(6) {
-            0 | 1 => SIx { prog: 0, disc: if rng.chance(1, 3) { -1 } else { 30 }, acct0: -1, acct1: 99 },
-            2 => SIx { prog: 2, disc: *rng.pick(&[11i64, 12]), acct0: 5, acct1: 99 },
-            3 => SIx { prog: 1, disc: 4, acct0: a, acct1: 99 },
-            4 => SIx { prog: 3, disc: 13, acct0: 6, acct1: 99 },
-            _ => SIx { prog: *rng.pick(&[1u64, 2, 3, 4, 6, 7]), disc: *rng.pick(&[5i64, 11, 13, 14, 4, 0, 2]), acct0: a, acct1: 99 },
+            0 | 1 => SIx { extra: 8, prog: 0, disc: if rng.chance(1, 3) { -1 } else { 30 }, acct0: -1, acct1: 99 },
+            2 => SIx { extra: 8, prog: 2, disc: *rng.pick(&[11i64, 12]), acct0: 5, acct1: 99 },
+            3 => SIx { extra: 8, prog: 1, disc: 4, acct0: a, acct1: 99 },
+            4 => SIx { extra: 8, prog: 3, disc: 13, acct0: 6, acct1: 99 },
+            _ => SIx { extra: 8, prog: *rng.pick(&[1u64, 2, 3, 4, 6, 7]), disc: *rng.pick(&[5i64, 11, 13, 14, 4, 0, 2]), acct0: a, acct1: 99 },
         });
     }
     let start_pos = v.len();
-    v.push(SIx { prog: 1, disc: s, acct0: a, acct1: 99 });
+    v.push(SIx { extra: 8, prog: 1, disc: s, acct0: a, acct1: 99 });
     for _ in 0..rng.below(5) {
         v.push(match rng.below(12) {
-            0 | 1 | 2 => SIx { prog: 1, disc: 5, acct0: a, acct1: 99 },
-            3 | 4 => SIx { prog: 1, disc: 6, acct0: a, acct1: 99 },
-            5 => SIx { prog: 1, disc: *rng.pick(&[7i64, 8, 4]), acct0: a, acct1: 99 },
-            6 => SIx { prog: *rng.pick(&[4u64, 5, 6, 0, 2, 3]), disc: *rng.pick(&[40i64, 11, 13, -1]), acct0: 9, acct1: 99 },
-            7 => SIx { prog: 1, disc: *rng.pick(&[14i64, 15, 9, 10, 16, 17, 2, 3, 0, 1]), acct0: a, acct1: 99 },
-            8 => SIx { prog: *rng.pick(&[7u64, 8]), disc: 41, acct0: 9, acct1: 99 },
-            9 => SIx { prog: 1, disc: -1, acct0: a, acct1: 99 },
-            _ => SIx { prog: 1, disc: *rng.pick(&[5i64, 6]), acct0: rng.below(3) as i64, acct1: 99 },
+            0 | 1 | 2 => SIx { extra: 8, prog: 1, disc: 5, acct0: a, acct1: 99 },
+            3 | 4 => SIx { extra: 8, prog: 1, disc: 6, acct0: a, acct1: 99 },
+            5 => SIx { extra: 8, prog: 1, disc: *rng.pick(&[7i64, 8, 4]), acct0: a, acct1: 99 },
+            6 => SIx { extra: 8, prog: *rng.pick(&[4u64, 5, 6, 0, 2, 3]), disc: *rng.pick(&[40i64, 11, 13, -1]), acct0: 9, acct1: 99 },
+            7 => SIx { extra: 8, prog: 1, disc: *rng.pick(&[14i64, 15, 9, 10, 16, 17, 2, 3, 0, 1]), acct0: a, acct1: 99 },
+            8 => SIx { extra: 8, prog: *rng.pick(&[7u64, 8]), disc: 41, acct0: 9, acct1: 99 },
+            9 => SIx { extra: 8, prog: 1, disc: -1, acct0: a, acct1: 99 },
+            _ => SIx { extra: 8, prog: 1, disc: *rng.pick(&[5i64, 6]), acct0: rng.below(3) as i64, acct1: 99 },
         });
     }
     match rng.below(8) {
         0 => {}                                                   // missing end
-        1 => v.push(SIx { prog: 1, disc: if liq { 3 } else { 1 }, acct0: a, acct1: 99 }), // wrong kind of end
-        2 => { v.push(SIx { prog: 1, disc: e, acct0: a, acct1: 99 }); v.push(SIx { prog: *rng.pick(&[0u64, 4, 1]), disc: *rng.pick(&[30i64, 5]), acct0: a, acct1: 99 }); }
-        3 => v.push(SIx { prog: *rng.pick(&[2u64, 4]), disc: e, acct0: a, acct1: 99 }),      // end discriminator under another program
-        _ => v.push(SIx { prog: 1, disc: e, acct0: a, acct1: 99 }),
+        1 => v.push(SIx { extra: 8, prog: 1, disc: if liq { 3 } else { 1 }, acct0: a, acct1: 99 }), // wrong kind of end
+        2 => { v.push(SIx { extra: 8, prog: 1, disc: e, acct0: a, acct1: 99 }); v.push(SIx { extra: 8, prog: *rng.pick(&[0u64, 4, 1]), disc: *rng.pick(&[30i64, 5]), acct0: a, acct1: 99 }); }
+        3 => v.push(SIx { extra: 8, prog: *rng.pick(&[2u64, 4]), disc: e, acct0: a, acct1: 99 }),      // end discriminator under another program
+        _ => v.push(SIx { extra: 8, prog: 1, disc: e, acct0: a, acct1: 99 }),
     }
     // occasionally a second start
     if rng.chance(1, 8) {
         let p = rng.below(v.len() as u64 + 1) as usize;
-        v.insert(p, SIx { prog: 1, disc: *rng.pick(&[0i64, 2]), acct0: rng.below(3) as i64, acct1: 99 });
+        v.insert(p, SIx { extra: 8, prog: 1, disc: *rng.pick(&[0i64, 2]), acct0: rng.below(3) as i64, acct1: 99 });
         // ... now and then with an instruction WITHOUT a discriminator (the ATA program's create carries 0-1 bytes of data, a
         // compute-budget or aggregator call can be short too) right in front of the later of the two starts
         if rng.chance(1, 3) {
             let later = v.iter().rposition(|x| x.prog == 1 && (x.disc == 0 || x.disc == 2)).unwrap();
-            v.insert(later, SIx { prog: *rng.pick(&[6u64, 6, 0, 4, 5]), disc: -1, acct0: 9, acct1: 99 });
+            v.insert(later, SIx { extra: 8, prog: *rng.pick(&[6u64, 6, 0, 4, 5]), disc: -1, acct0: 9, acct1: 99 });
         }
+    }
+    // argument bytes after the discriminator: none (what a client sends for an instruction without arguments), one, or eight
+    for x in v.iter_mut() {
+        x.extra = *rng.pick(&[0u8, 0, 0, 8, 8, 1]);
     }
     let cur = match rng.below(6) {
         0 => rng.below(v.len() as u64) as usize,
@@ -155,7 +162,7 @@ fn gen_shape(rng: &mut Rng, liq: bool) -> (Vec<SIx>, usize) {
 }
 
 fn show(v: &[SIx]) -> String {
-    v.iter().map(|s| format!("{} {} {}", s.prog, s.disc, s.acct0)).collect::<Vec<_>>().join(" ")
+    v.iter().map(|s| format!("{} {} {}", s.prog, if s.disc >= 0 { s.disc + 1000 * s.extra as i64 } else { s.disc }, s.acct0)).collect::<Vec<_>>().join(" ")
 }
 
 pub fn gen(rng: &mut Rng, n: usize, out: &mut Vec<String>) {
@@ -187,24 +194,24 @@ pub fn gen(rng: &mut Rng, n: usize, out: &mut Vec<String>) {
             let key = rng.below(3);
             let mut v: Vec<SIx> = vec![];
             for _ in 0..rng.below(3) {
-                v.push(SIx { prog: *rng.pick(&[0u64, 1, 4]), disc: *rng.pick(&[30i64, 14, 15, 10]), acct0: rng.below(3) as i64, acct1: 99 });
+                v.push(SIx { extra: 8, prog: *rng.pick(&[0u64, 1, 4]), disc: *rng.pick(&[30i64, 14, 15, 10]), acct0: rng.below(3) as i64, acct1: 99 });
             }
             let cur = v.len();
-            v.push(SIx { prog: 1, disc: 9, acct0: key as i64, acct1: 99 });
+            v.push(SIx { extra: 8, prog: 1, disc: 9, acct0: key as i64, acct1: 99 });
             for _ in 0..rng.below(4) {
-                v.push(SIx { prog: *rng.pick(&[1u64, 1, 4, 0]), disc: *rng.pick(&[15i64, 5, 14, 30, 9, -1]), acct0: rng.below(3) as i64, acct1: 99 });
+                v.push(SIx { extra: 8, prog: *rng.pick(&[1u64, 1, 4, 0]), disc: *rng.pick(&[15i64, 5, 14, 30, 9, -1]), acct0: rng.below(3) as i64, acct1: 99 });
             }
             let end_pos = v.len();
             match rng.below(8) {
-                0 => v.push(SIx { prog: 1, disc: 10, acct0: ((key + 1) % 3) as i64, acct1: if rng.chance(1, 2) { key as i64 } else { 99 } }), // another account's end (sometimes with this account further down its list)
-                1 => v.push(SIx { prog: 4, disc: 10, acct0: key as i64, acct1: 99 }),              // end bytes under another program
-                2 => v.push(SIx { prog: 1, disc: 10, acct0: -1, acct1: 99 }),                      // no accounts
-                3 => v.push(SIx { prog: 1, disc: -1, acct0: key as i64, acct1: 99 }),              // short data
-                4 => v.push(SIx { prog: 1, disc: 15, acct0: key as i64, acct1: 99 }),              // not an end
-                _ => v.push(SIx { prog: 1, disc: 10, acct0: key as i64, acct1: 99 }),
+                0 => v.push(SIx { extra: 8, prog: 1, disc: 10, acct0: ((key + 1) % 3) as i64, acct1: if rng.chance(1, 2) { key as i64 } else { 99 } }), // another account's end (sometimes with this account further down its list)
+                1 => v.push(SIx { extra: 8, prog: 4, disc: 10, acct0: key as i64, acct1: 99 }),              // end bytes under another program
+                2 => v.push(SIx { extra: 8, prog: 1, disc: 10, acct0: -1, acct1: 99 }),                      // no accounts
+                3 => v.push(SIx { extra: 8, prog: 1, disc: -1, acct0: key as i64, acct1: 99 }),              // short data
+                4 => v.push(SIx { extra: 8, prog: 1, disc: 15, acct0: key as i64, acct1: 99 }),              // not an end
+                _ => v.push(SIx { extra: 8, prog: 1, disc: 10, acct0: key as i64, acct1: 99 }),
             }
             for _ in 0..rng.below(2) {
-                v.push(SIx { prog: *rng.pick(&[1u64, 0]), disc: *rng.pick(&[14i64, 30]), acct0: key as i64, acct1: 99 });
+                v.push(SIx { extra: 8, prog: *rng.pick(&[1u64, 0]), disc: *rng.pick(&[14i64, 30]), acct0: key as i64, acct1: 99 });
             }
             let end_idx = match rng.below(10) {
                 0 => rng.below(v.len() as u64 + 2) as usize,
@@ -267,7 +274,7 @@ pub fn monitor(rng: &mut Rng, n: usize, rep: &mut crate::mon::Report) {
         let toks: Vec<i64> = lhs.split(' ').skip(1).map(|t| t.parse().unwrap()).collect();
         if lhs.starts_with("tx.validate") {
             let (s, e, cur, stack) = (toks[0], toks[1], toks[2] as usize, toks[3]);
-            let ixs: Vec<(i64, i64, i64)> = toks[4..].chunks(3).map(|c| (c[0], c[1], c[2])).collect();
+            let ixs: Vec<(i64, i64, i64)> = toks[4..].chunks(3).map(|c| (c[0], if c[1] >= 0 { c[1] % 1000 } else { c[1] }, c[2])).collect();
             let mut why: Vec<String> = vec![];
             if stack != 1 { why.push("accepted inside a CPI".into()) }
             if ixs.get(cur).map(|x| x.0) != Some(1) { why.push("the running instruction is not this program's".into()) }
@@ -298,7 +305,7 @@ pub fn monitor(rng: &mut Rng, n: usize, rep: &mut crate::mon::Report) {
         } else {
             let (cur, stack, end_idx, key) = (toks[0] as usize, toks[1], toks[2] as usize, toks[3]);
             let flags = &toks[4..8];
-            let ixs: Vec<(i64, i64, i64)> = toks[8..].chunks(3).map(|c| (c[0], c[1], c[2])).collect();
+            let ixs: Vec<(i64, i64, i64)> = toks[8..].chunks(3).map(|c| (c[0], if c[1] >= 0 { c[1] % 1000 } else { c[1] }, c[2])).collect();
             let mut why: Vec<String> = vec![];
             if stack != 1 { why.push("accepted inside a CPI".into()) }
             if ixs.get(cur).map(|x| x.0) != Some(1) { why.push("the running instruction is not this program's".into()) }
